@@ -70,6 +70,8 @@ type vRelay struct {
 	// (a single relay hiccup right after the post-pairing switch)
 	junkAt   int
 	junkSeen int
+	// junkAt2: the same for the next reconnect cycle (armed by nextCycle)
+	junkAt2 int
 }
 
 func newRelay(sid [64]byte, budget int) *vRelay {
@@ -106,6 +108,15 @@ func (r *vRelay) truncates() bool {
 	defer r.mu.Unlock()
 	r.junkSeen++
 	return r.junkAt != 0 && r.junkSeen == r.junkAt
+}
+
+// nextCycle: the harness starts another reconnect cycle; the frame counter
+// starts again and the cycle's own truncation choice takes effect.
+func (r *vRelay) nextCycle() {
+	r.mu.Lock()
+	defer r.mu.Unlock()
+	r.junkSeen = 0
+	r.junkAt = r.junkAt2
 }
 
 func (r *vRelay) epoch() chan struct{} {
